@@ -47,6 +47,7 @@ void* sy_barrier_root(void* x) {
     memset(arrived, 0, sizeof(arrived));
     memset(serial, 0, sizeof(serial));
     fiber_barrier_init(&bar, (uint32_t)count);
+    if (vp_rand(&rng) & 1) bar.counter = ((0x100000000ULL / (uint64_t)count) - 20) * (uint64_t)count;  // arrival counter crosses 2^32
     fiber_manager_stats_t st0, st1;
     fiber_manager_all_stats(&st0);
     fb_slots_reset();
